@@ -179,6 +179,14 @@ def directed():
         if n:
             yield {"steps": steps0 + [{"op": "assign", "u": u, "rs": 0, "cs": None, "has_cs": False, "vk": "scalar", "val": 888},
                                       {"op": "obs", "u": "a0", "what": "ravel", "arg": None}, {"op": "obs", "u": u, "what": "tolist", "arg": None}], "hazard": False}
+    # an unread row-and-column selection is asked one column of all its rows, then a column of SOME of its rows that only those rows are long enough for
+    for cs0_ in (slice(0, None), slice(None, None, 1), slice(None, None, -1)):
+        for first_ in ([slice(None), 1, True], [slice(None), -2, True], [Ellipsis, 0, True]):
+            for second_ in ([[0, 2], 2, True], [[2], 3, True], [np.array([True, False, True, False]), 2, True], [[2, 0], -3, True], [slice(0, 3, 2), 2, True]):
+                yield {"steps": [{"op": "init", "v": "a0", "rows": [list(r) for r in BASE_ROWS]},
+                                 {"op": "sel", "v": "a1", "u": "a0", "rs": [0, 3, 4, 5], "cs": cs0_, "has_cs": True},
+                                 {"op": "obs", "u": "a1", "what": "sel", "arg": first_}, {"op": "obs", "u": "a1", "what": "sel", "arg": second_},
+                                 {"op": "obs", "u": "a1", "what": "getcol", "arg": 2}, {"op": "obs", "u": "a1", "what": "tolist", "arg": None}], "hazard": False}
     # pieces of one array, cut out with different column steps and not yet looked at, joined in one call
     for (sa_, sb_) in ((((slice(None), slice(None, None, 2)), (slice(None), slice(None, None, -1)))), ((slice(None), slice(1, None)), (slice(1, 3), slice(None, None, 2))),
                        ((slice(None), slice(None, None, -2)), (slice(None), slice(None, None, 2))), ((slice(0, 2), slice(None, None, 3)), (slice(2, None), slice(None, None, -1)))):
